@@ -93,7 +93,13 @@ pub fn rope_case(t: &mut Toks) -> String {
   let n = r.len();
   let s = r.to_string();
   let gb: Vec<String> = (0..n + 2)
-    .map(|i| r.get_byte(i).map_or("-".to_string(), |b| b.to_string()))
+    .map(|i| {
+      // the panicking accessor agrees with the checked one inside the rope ("X" would diverge)
+      if i < n && Some(r.byte(i)) != r.get_byte(i) {
+        return "X".to_string();
+      }
+      r.get_byte(i).map_or("-".to_string(), |b| b.to_string())
+    })
     .collect();
   let ci: Vec<String> = r
     .char_indices()
@@ -157,6 +163,7 @@ pub fn rope_case(t: &mut Toks) -> String {
     hexlist(&hs),
     r.starts_with(&r2) as u8,
     (r == r2) as u8,
-    (r == *s2.as_str()) as u8
+    // PartialEq<str> and PartialEq<&str> must agree (2 would diverge from the model)
+    if (r == *s2.as_str()) == (r == s2.as_str()) { (r == *s2.as_str()) as u8 } else { 2 }
   )
 }
